@@ -280,6 +280,13 @@ func (fr *frame) jsonUnmarshal(data value, dst value) value {
 		store(dt, cell, cloneValue(rec.typ, rec.val))
 		return iface{}
 	}
+	// Two differently named struct types with identical underlying types
+	// (same field names, field types and tags -- hence the same JSON shape,
+	// e.g. a function-local "tmpStatement"): the round trip is the same copy.
+	if _, isStruct := dt.Underlying().(*types.Struct); isStruct && types.Identical(dt.Underlying(), rec.typ.Underlying()) {
+		store(dt, cell, cloneValue(rec.typ, rec.val))
+		return iface{}
+	}
 	// map[string]any destination: top-level string/bool/number fields by json tag
 	if m, isMap := dt.Underlying().(*types.Map); isMap {
 		if _, keyStr := m.Key().Underlying().(*types.Basic); keyStr {
